@@ -6,9 +6,12 @@ import (
 	"errors"
 	"fmt"
 	"io"
+	"math"
 	"os"
 	"path/filepath"
+	"sort"
 	"strings"
+	"sync"
 
 	blocks "github.com/ipfs/go-block-format"
 	"github.com/ipfs/go-cid"
@@ -17,6 +20,7 @@ import (
 	"github.com/ipfs/go-merkledag"
 	carv1 "github.com/ipld/go-car"
 	carv2 "github.com/ipld/go-car/v2"
+	dagpb "github.com/ipld/go-codec-dagpb"
 	"github.com/ipld/go-ipld-prime"
 	_ "github.com/ipld/go-ipld-prime/codec/dagcbor"
 	_ "github.com/ipld/go-ipld-prime/codec/raw"
@@ -24,6 +28,7 @@ import (
 	"github.com/ipld/go-ipld-prime/linking"
 	cidlink "github.com/ipld/go-ipld-prime/linking/cid"
 	"github.com/ipld/go-ipld-prime/node/basicnode"
+	"github.com/ipld/go-ipld-prime/traversal"
 	"github.com/ipld/go-ipld-prime/traversal/selector"
 	"github.com/ipld/go-ipld-prime/traversal/selector/builder"
 
@@ -33,14 +38,31 @@ import (
 )
 
 type C15Case struct {
-	N       int      `json:"n"`                // number of nodes
-	Mult    []int    `json:"mult"`             // link multiplicity for each pair (i<j) in lexicographic order
-	RawLeaf bool     `json:"rawleaf"`          // the last node is a raw block
-	Sel     string   `json:"sel"`              // all, depth1, depth2, field-a
-	Writer  string   `json:"writer"`           // v2-selective, v2-traversev1, v2-tofile, v1-writecar, v1-selective, v1-prepare-dump
-	Opts    drv.Opts `json:"opts"`             // AllowDup = link-visit-once off (v2); paddings; codec; NoIndex
-	Budget  uint64   `json:"budget,omitempty"` // MaxTraversalLinks (0 = none)
-	Once    bool     `json:"once,omitempty"`   // root module: TraverseLinksOnlyOnce
+	N       int      `json:"n"`                  // number of nodes
+	Mult    []int    `json:"mult"`               // link multiplicity for each pair (i<j) in lexicographic order
+	RawLeaf bool     `json:"rawleaf"`            // the last node is a 100-byte raw block
+	Leaf    string   `json:"leaf,omitempty"`     // other shapes of the last node: twin, ident, raw0 (see c15Build)
+	Codec   string   `json:"dagcodec,omitempty"` // "" = dag-cbor with CIDv1, "pb" = dag-pb with CIDv0
+	Sel     string   `json:"sel"`                // all, depth1, depth2, field-a, bytes
+	Writer  string   `json:"writer"`             // v2-selective, v2-traversev1, v2-tofile, v1-writecar, v1-selective, v1-prepare-dump
+	Opts    drv.Opts `json:"opts"`               // AllowDup = link-visit-once off (v2); paddings; codec; NoIndex
+	Budget  uint64   `json:"budget,omitempty"`   // MaxTraversalLinks (0 = none)
+	Budget0 bool     `json:"budget0,omitempty"`  // MaxTraversalLinks(0)
+	Once    bool     `json:"once,omitempty"`     // root module: TraverseLinksOnlyOnce
+	Root2   int      `json:"root2,omitempty"`    // root module: k>0 = a second root / Dag at node k-1 (1 = the same root twice)
+	Sel2    string   `json:"sel2,omitempty"`     // selector of the second Dag ("" = Sel)
+	Cbs     string   `json:"cbs,omitempty"`      // SelectiveCar block callbacks: "" = one, "none", "two"
+	Missing int      `json:"missing,omitempty"`  // k>0: node k is absent from the store (SkipMe / not-found)
+	Walker  string   `json:"walker,omitempty"`   // v1-writecar: "skip1" = WriteCarWithWalker with a walk func dropping the links to node 1
+	Chooser bool     `json:"chooser,omitempty"`  // v2: WithTraversalPrototypeChooser(dag-pb aware chooser)
+	Prefill bool     `json:"prefill,omitempty"`  // v2-tofile: the destination already exists and is longer than the result
+}
+
+func (cs C15Case) leafKind() string {
+	if cs.RawLeaf {
+		return "raw"
+	}
+	return cs.Leaf
 }
 
 // dag-cbor by hand: map of single-letter link fields plus an integer "z"
@@ -58,6 +80,22 @@ func c15Node(id int, links [][]byte) []byte {
 	return b
 }
 
+// dag-pb by hand: PBLink{Hash, Name = one letter, Tsize = 0} in field order, then Data = one byte
+func c15PBNode(id int, links [][]byte) []byte {
+	var b []byte
+	for i, l := range links {
+		var lb []byte
+		lb = append(lb, 0x0a, byte(len(l)))
+		lb = append(lb, l...)
+		lb = append(lb, 0x12, 0x01, byte('a'+i))
+		lb = append(lb, 0x18, 0x00)
+		b = append(b, 0x12, byte(len(lb)))
+		b = append(b, lb...)
+	}
+	b = append(b, 0x0a, 0x01, byte(id))
+	return b
+}
+
 type c15Dag struct {
 	cids  [][]byte
 	data  [][]byte
@@ -65,6 +103,13 @@ type c15Dag struct {
 	kids  [][]int // child indices in field order (with repetitions)
 }
 
+// c15Build makes the DAG of a case. Inner nodes are dag-cbor/CIDv1 or dag-pb/CIDv0. The last node can be
+//
+//	raw   : a 100-byte raw block (data length needs a 1-byte varint, CID+data a 2-byte one)
+//	twin  : a raw block whose bytes are those of node N-2 encoded as a leaf: when N-2 is a leaf the two CIDs share
+//	        their multihash and differ in the codec only
+//	ident : a raw block under an identity-multihash CID
+//	raw0  : a zero-length raw block
 func c15Build(cs C15Case) *c15Dag {
 	d := &c15Dag{cids: make([][]byte, cs.N), data: make([][]byte, cs.N), byCid: map[string]int{}, kids: make([][]int, cs.N)}
 	// pair index
@@ -80,6 +125,11 @@ func c15Build(cs C15Case) *c15Dag {
 		}
 		return 0
 	}
+	enc := c15Node
+	if cs.Codec == "pb" {
+		enc = c15PBNode
+	}
+	kind := cs.leafKind()
 	for i := cs.N - 1; i >= 0; i-- {
 		var links [][]byte
 		for j := i + 1; j < cs.N; j++ {
@@ -88,32 +138,86 @@ func c15Build(cs C15Case) *c15Dag {
 				d.kids[i] = append(d.kids[i], j)
 			}
 		}
-		codec := uint64(refcar.CodecDagCBOR)
-		if i == cs.N-1 && cs.RawLeaf && cs.N > 1 {
-			// 100 bytes: the data length alone needs a 1-byte varint, CID+data a 2-byte one
-			d.data[i] = []byte(fmt.Sprintf("raw leaf %d %s", i, strings.Repeat("=", 89)))
-			codec = refcar.CodecRaw
-		} else {
-			d.data[i] = c15Node(i, links)
+		special := ""
+		if i == cs.N-1 && cs.N > 1 {
+			special = kind
 		}
-		dg, _ := refcar.Digest(refcar.MhSha256, d.data[i])
-		d.cids[i] = refcar.CIDv1(codec, refcar.MhSha256, dg)
+		switch special {
+		case "raw":
+			d.data[i] = []byte(fmt.Sprintf("raw leaf %d %s", i, strings.Repeat("=", 89)))
+		case "twin":
+			d.data[i] = enc(cs.N-2, nil)
+		case "ident":
+			d.data[i] = []byte{'i', 'd', byte(i)}
+		case "raw0":
+			d.data[i] = []byte{}
+		default:
+			d.data[i] = enc(i, links)
+		}
+		switch {
+		case special == "ident":
+			d.cids[i] = refcar.CIDv1(refcar.CodecRaw, refcar.MhIdentity, d.data[i])
+		case special != "":
+			dg, _ := refcar.Digest(refcar.MhSha256, d.data[i])
+			d.cids[i] = refcar.CIDv1(refcar.CodecRaw, refcar.MhSha256, dg)
+		case cs.Codec == "pb":
+			dg, _ := refcar.Digest(refcar.MhSha256, d.data[i])
+			d.cids[i] = refcar.CIDv0(dg)
+		default:
+			dg, _ := refcar.Digest(refcar.MhSha256, d.data[i])
+			d.cids[i] = refcar.CIDv1(refcar.CodecDagCBOR, refcar.MhSha256, dg)
+		}
 		d.byCid[string(d.cids[i])] = i
 	}
 	return d
 }
 
-func c15Selector(name string) datamodel.Node {
+// reach is the hand model of an exhaustive walk: the nodes reachable from the roots, not descending through a
+// node that is absent from the store and not following links to drop (walker variant).
+func (d *c15Dag) reach(roots []int, missing, drop int) map[int]bool {
+	seen := map[int]bool{}
+	var walk func(i int)
+	walk = func(i int) {
+		if seen[i] || i == missing {
+			return
+		}
+		seen[i] = true
+		for _, j := range d.kids[i] {
+			if j != drop {
+				walk(j)
+			}
+		}
+	}
+	for _, r := range roots {
+		walk(r)
+	}
+	return seen
+}
+
+func c15Selector(name, codec string) datamodel.Node {
 	ssb := builder.NewSelectorSpecBuilder(basicnode.Prototype.Any)
+	// a dag-pb link sits three data-model steps below its node (Links / index / Hash)
+	d1, d2 := int64(1), int64(2)
+	if codec == "pb" {
+		d1, d2 = 4, 7
+	}
 	switch name {
 	case "all":
 		return ssb.ExploreRecursive(selector.RecursionLimitNone(), ssb.ExploreAll(ssb.ExploreRecursiveEdge())).Node()
 	case "depth1":
-		return ssb.ExploreRecursive(selector.RecursionLimitDepth(1), ssb.ExploreAll(ssb.ExploreRecursiveEdge())).Node()
+		return ssb.ExploreRecursive(selector.RecursionLimitDepth(d1), ssb.ExploreAll(ssb.ExploreRecursiveEdge())).Node()
 	case "depth2":
-		return ssb.ExploreRecursive(selector.RecursionLimitDepth(2), ssb.ExploreAll(ssb.ExploreRecursiveEdge())).Node()
+		return ssb.ExploreRecursive(selector.RecursionLimitDepth(d2), ssb.ExploreAll(ssb.ExploreRecursiveEdge())).Node()
 	case "field-a":
+		if codec == "pb" {
+			return ssb.ExploreFields(func(e builder.ExploreFieldsSpecBuilder) {
+				e.Insert("Links", ssb.ExploreIndex(0, ssb.ExploreFields(func(e builder.ExploreFieldsSpecBuilder) { e.Insert("Hash", ssb.Matcher()) })))
+			}).Node()
+		}
 		return ssb.ExploreFields(func(e builder.ExploreFieldsSpecBuilder) { e.Insert("a", ssb.Matcher()) }).Node()
+	case "bytes":
+		// the unixfs-file shape: the root is reified into a LargeBytesNode whose byte stream loads the children lazily
+		return ssb.ExploreInterpretAs(c15BigADL, ssb.Matcher()).Node()
 	}
 	panic(name)
 }
@@ -121,14 +225,22 @@ func c15Selector(name string) datamodel.Node {
 // logging store -----------------------------------------------------------
 
 type c15Store struct {
-	d   *c15Dag
-	log []int // node indices in load order
+	d        *c15Dag
+	log      []int // node indices in load order (successful loads only)
+	missing  int   // node index absent from the store, -1 = none
+	notFound bool  // absent = format.ErrNotFound (merkledag) instead of traversal.SkipMe (ipld-prime)
 }
 
 func (s *c15Store) get(c cid.Cid) ([]byte, error) {
 	i, ok := s.d.byCid[string(c.Bytes())]
 	if !ok {
 		return nil, format.ErrNotFound{Cid: c}
+	}
+	if i == s.missing {
+		if s.notFound {
+			return nil, format.ErrNotFound{Cid: c}
+		}
+		return nil, traversal.SkipMe{}
 	}
 	s.log = append(s.log, i)
 	return s.d.data[i], nil
@@ -152,7 +264,76 @@ func (s *c15Store) linkSystem() ipld.LinkSystem {
 		}
 		return bytes.NewReader(b), nil
 	}
+	ls.KnownReifiers = map[string]linking.NodeReifier{c15BigADL: c15BigReifier}
 	return ls
+}
+
+// A minimal stand-in for the unixfs file ADL: the reified node is a LargeBytesNode; reading its bytes loads every
+// link held by the node (in field order, repetitions included) through the link system it was reified with.
+const c15BigADL = "c15big"
+
+type c15Big struct {
+	datamodel.Node
+	ls  *linking.LinkSystem
+	ctx context.Context
+}
+
+func c15BigReifier(lc linking.LinkContext, n datamodel.Node, ls *linking.LinkSystem) (datamodel.Node, error) {
+	return &c15Big{Node: n, ls: ls, ctx: lc.Ctx}, nil
+}
+
+func c15Links(n datamodel.Node, out []datamodel.Link) []datamodel.Link {
+	switch n.Kind() {
+	case datamodel.Kind_Link:
+		l, _ := n.AsLink()
+		out = append(out, l)
+	case datamodel.Kind_Map:
+		for it := n.MapIterator(); !it.Done(); {
+			_, v, err := it.Next()
+			if err != nil {
+				break
+			}
+			out = c15Links(v, out)
+		}
+	case datamodel.Kind_List:
+		for it := n.ListIterator(); !it.Done(); {
+			_, v, err := it.Next()
+			if err != nil {
+				break
+			}
+			out = c15Links(v, out)
+		}
+	}
+	return out
+}
+
+func (b *c15Big) AsLargeBytes() (io.ReadSeeker, error) {
+	return &c15BigReader{b: b, links: c15Links(b.Node, nil)}, nil
+}
+
+type c15BigReader struct {
+	b     *c15Big
+	links []datamodel.Link
+}
+
+func (r *c15BigReader) Read(p []byte) (int, error) {
+	if len(r.links) == 0 {
+		return 0, io.EOF
+	}
+	if len(p) == 0 {
+		return 0, nil
+	}
+	l := r.links[0]
+	r.links = r.links[1:]
+	if _, err := r.b.ls.Load(linking.LinkContext{Ctx: r.b.ctx}, l, basicnode.Prototype.Any); err != nil {
+		return 0, err
+	}
+	p[0] = '.'
+	return 1, nil
+}
+
+func (r *c15BigReader) Seek(int64, int) (int64, error) {
+	return 0, errors.New("c15: not seekable")
 }
 
 // format.NodeGetter for the root module's WriteCar
@@ -163,8 +344,11 @@ func (g c15NodeGetter) Get(ctx context.Context, c cid.Cid) (format.Node, error) 
 	if err != nil {
 		return nil, err
 	}
-	if c.Prefix().Codec == cid.Raw {
+	switch c.Prefix().Codec {
+	case cid.Raw:
 		return merkledag.NewRawNodeWPrefix(blk.RawData(), c.Prefix())
+	case cid.DagProtobuf:
+		return merkledag.DecodeProtobufBlock(blk)
 	}
 	return cbornode.DecodeBlock(blk)
 }
@@ -190,33 +374,264 @@ func firstVisit(log []int) []int {
 	return out
 }
 
+// reference traversal ------------------------------------------------------
+
+type c15DagSpec struct {
+	root int
+	sel  string
+}
+
+type c15Ref struct {
+	log []int
+	err error
+}
+
+func c15BasicChooser(ipld.Link, linking.LinkContext) (ipld.NodePrototype, error) {
+	return basicnode.Prototype.Any, nil
+}
+
+// c15Reference runs the traversal the writers are specified to perform - one ipld-prime walk per (root, selector)
+// with the documented meaning of the options - directly on a fresh logging store, without go-car.
+// budget < 0 = none. Each walk has its own budget and its own seen-links set.
+func c15Reference(ctx context.Context, d *c15Dag, cs C15Case, dags []c15DagSpec, once bool, budget int64, chooser traversal.LinkTargetNodePrototypeChooser) c15Ref {
+	st := &c15Store{d: d, missing: c15Missing(cs)}
+	ls := st.linkSystem()
+	for _, dg := range dags {
+		if dg.sel == "bytes" {
+			// hand model (the visit function that drains the bytes is go-car's): the root, then its links in order
+			if _, err := st.get(mustCid(d.cids[dg.root])); err != nil {
+				return c15Ref{st.log, err}
+			}
+			for _, k := range d.kids[dg.root] {
+				if _, err := st.get(mustCid(d.cids[k])); err != nil {
+					return c15Ref{st.log, err}
+				}
+			}
+			continue
+		}
+		sel, err := selector.CompileSelector(c15Selector(dg.sel, cs.Codec))
+		if err != nil {
+			panic(err)
+		}
+		lnk := cidlink.Link{Cid: mustCid(d.cids[dg.root])}
+		np, _ := chooser(lnk, linking.LinkContext{})
+		rootNode, err := ls.Load(linking.LinkContext{Ctx: ctx}, lnk, np)
+		if err != nil {
+			return c15Ref{st.log, err}
+		}
+		prog := traversal.Progress{Cfg: &traversal.Config{
+			Ctx:                            ctx,
+			LinkSystem:                     ls,
+			LinkTargetNodePrototypeChooser: chooser,
+			LinkVisitOnlyOnce:              once,
+		}}
+		if budget >= 0 {
+			prog.Budget = &traversal.Budget{NodeBudget: math.MaxInt64, LinkBudget: budget}
+		}
+		if err := prog.WalkAdv(rootNode, sel, func(traversal.Progress, datamodel.Node, traversal.VisitReason) error { return nil }); err != nil {
+			return c15Ref{st.log, err}
+		}
+	}
+	return c15Ref{st.log, nil}
+}
+
+// The reference result depends on the DAG, the Dags, link-visit-once, the budget and the prototype chooser only; the
+// generator emits the cases of one DAG consecutively, so every worker keeps the results of its current DAG.
+type c15RefCache struct {
+	dag string
+	m   map[string]c15Ref
+}
+
+var c15RefCaches sync.Map // worker scratch dir (one goroutine each) -> *c15RefCache
+
+func c15CachedReference(x *kit.Ctx, ctx context.Context, d *c15Dag, cs C15Case, dags []c15DagSpec, once bool, budget int64, typed bool) c15Ref {
+	v, _ := c15RefCaches.LoadOrStore(x.Dir, &c15RefCache{})
+	c := v.(*c15RefCache)
+	dagKey := fmt.Sprintf("%d%v|%s|%s|%d", cs.N, cs.Mult, cs.Codec, cs.leafKind(), cs.Missing)
+	if c.dag != dagKey {
+		c.dag, c.m = dagKey, map[string]c15Ref{}
+	}
+	k := fmt.Sprintf("%v|%v|%d|%v", dags, once, budget, typed)
+	if r, ok := c.m[k]; ok {
+		return r
+	}
+	ch := traversal.LinkTargetNodePrototypeChooser(c15BasicChooser)
+	if typed {
+		ch = dagpb.AddSupportToChooser(c15BasicChooser)
+	}
+	r := c15Reference(ctx, d, cs, dags, once, budget, ch)
+	c.m[k] = r
+	return r
+}
+
+func mustCid(b []byte) cid.Cid {
+	c, err := cid.Cast(b)
+	if err != nil {
+		panic(err)
+	}
+	return c
+}
+
+func c15Missing(cs C15Case) int {
+	if cs.Missing > 0 {
+		return cs.Missing
+	}
+	return -1
+}
+
+func hasRepeats(log []int) bool { return len(firstVisit(log)) != len(log) }
+
+func sortedKeys(m map[int]bool) []int {
+	var out []int
+	for k := range m {
+		out = append(out, k)
+	}
+	sort.Ints(out)
+	return out
+}
+
 func runC15(c any, x *kit.Ctx) {
 	cs := c.(C15Case)
 	d := c15Build(cs)
-	root, _ := cid.Cast(d.cids[0])
-	sel := c15Selector(cs.Sel)
-	st := &c15Store{d: d}
+	root := mustCid(d.cids[0])
+	sel := c15Selector(cs.Sel, cs.Codec)
+	missing := c15Missing(cs)
+	st := &c15Store{d: d, missing: missing}
 	ctx := context.Background()
 	tag := cs.Writer
 	x.Eval(1)
-	defaultCfg := !cs.Opts.AllowDup && cs.Budget == 0
-	refusal := func(err error) bool {
-		// an error is a refusal and asserts nothing, except in the default configuration
-		// (link-visit-once, no budget) where the traversal must go through
-		if defaultCfg || (cs.Writer[:2] == "v1" && cs.Budget == 0) {
-			x.Fail("c15:unexpected-error:"+tag, "writer failed with default traversal options: %v", err)
+	isV1 := cs.Writer[:2] == "v1"
+
+	// the Dags / roots of the case
+	dags := []c15DagSpec{{0, cs.Sel}}
+	if cs.Root2 > 0 {
+		s2 := cs.Sel2
+		if s2 == "" {
+			s2 = cs.Sel
 		}
-		x.Outcome("refused")
+		dags = append(dags, c15DagSpec{cs.Root2 - 1, s2})
+	}
+	var wantRoots [][]byte
+	var rootIdx []int
+	var rootCids []cid.Cid
+	for _, dg := range dags {
+		wantRoots = append(wantRoots, d.cids[dg.root])
+		rootIdx = append(rootIdx, dg.root)
+		rootCids = append(rootCids, mustCid(d.cids[dg.root]))
+	}
+
+	budget := int64(-1)
+	if cs.Budget > 0 {
+		budget = int64(cs.Budget)
+	}
+	if cs.Budget0 {
+		budget = 0
+	}
+	defaultCfg := !cs.Opts.AllowDup && budget < 0
+
+	// reference traversals this run may legally coincide with
+	var refs []c15Ref
+	switch {
+	case cs.Writer == "v1-writecar":
+		// merkledag walk: modelled by reach() below, no load-order reference
+	case isV1:
+		refs = []c15Ref{c15CachedReference(x, ctx, d, cs, dags, cs.Once, budget, true)}
+	default:
+		if cs.Opts.AllowDup {
+			// the option is documented as ignored by the v2 root package and implemented as link-visit-once off: either is accepted
+			refs = append(refs, c15CachedReference(x, ctx, d, cs, dags, false, budget, cs.Chooser))
+		}
+		refs = append(refs, c15CachedReference(x, ctx, d, cs, dags, true, budget, cs.Chooser))
+	}
+	refFails, refSucceeds := false, false
+	for _, r := range refs {
+		if r.err != nil {
+			refFails = true
+		} else {
+			refSucceeds = true
+		}
+	}
+	sameLog := func(a, b []int) bool {
+		if len(a) != len(b) {
+			return false
+		}
+		for i := range a {
+			if a[i] != b[i] {
+				return false
+			}
+		}
 		return true
 	}
+
+	// failed: the writer returned err after loading log. Returns true when that is a legal refusal.
+	failed := func(err error, log []int, what string) {
+		x.Outcome("refused")
+		if cs.Writer == "v1-writecar" {
+			x.Fail("c15:unexpected-error:"+tag, "%s failed although every reachable node is served or ignorable: %v", what, err)
+			return
+		}
+		if errors.Is(err, carv2.ErrSizeMismatch) {
+			x.Count("refused-size-mismatch", 1)
+			// counting pass counts every load, the writing pass writes a block once: legal only when a block was loaded twice
+			if defaultCfg && cs.Sel != "bytes" {
+				x.Fail("c15:size-mismatch:"+tag, "counting pass and writing pass disagree with default options: %v", err)
+				x.Fail("c15:unexpected-error:"+tag, "writer failed with default traversal options: %v", err)
+				return
+			}
+			if !hasRepeats(log) {
+				x.Fail("c15:size-mismatch:"+tag, "%s: ErrSizeMismatch although the writing pass loaded every block once (log %v)", what, log)
+				return
+			}
+			for _, r := range refs {
+				if r.err == nil && sameLog(r.log, log) {
+					return
+				}
+			}
+			x.Fail("c15:traversal:"+tag, "%s: the writing pass loaded %v; the reference traversal loads %v", what, log, refs[len(refs)-1].log)
+			return
+		}
+		if !refFails {
+			if defaultCfg || (isV1 && budget < 0) {
+				x.Fail("c15:unexpected-error:"+tag, "writer failed with default traversal options: %v", err)
+			} else {
+				x.Fail("c15:unexpected-error:"+tag, "%s failed (%v) although the reference traversal succeeds within the budget (loads %v)", what, err, refs[len(refs)-1].log)
+			}
+			return
+		}
+		x.Count("refused-traversal-error", 1)
+		for _, r := range refs {
+			if r.err != nil && sameLog(r.log, log) {
+				return
+			}
+		}
+		x.Fail("c15:error-log:"+tag, "%s failed (%v) after loading %v; the reference traversal fails after loading %v", what, err, log, refs[0].log)
+	}
+
+	// succeeded: the loads of a successful pass must be those of a reference traversal
+	succeeded := func(log []int, what string) {
+		if cs.Writer == "v1-writecar" {
+			return
+		}
+		if !refSucceeds {
+			x.Fail("c15:budget-ignored:"+tag, "%s succeeded (loads %v) although the traversal must fail: %v", what, log, refs[0].err)
+			return
+		}
+		for _, r := range refs {
+			if r.err == nil && sameLog(r.log, log) {
+				return
+			}
+		}
+		x.Fail("c15:traversal:"+tag, "%s loaded %v; the reference traversal loads %v", what, log, refs[len(refs)-1].log)
+	}
+
 	checkPayload := func(payload []byte, writeLog []int, what string) *refcar.Payload {
 		pl, err := refcar.DecodePayload(payload, false, true)
 		if err != nil {
 			x.Fail("c15:payload-malformed:"+tag, "%s: payload not well-formed: %v", what, err)
 			return nil
 		}
-		if !sameRoots(pl.Header.Roots, [][]byte{d.cids[0]}) {
-			x.Fail("c15:roots:"+tag, "%s: roots %x want the traversal root", what, pl.Header.Roots)
+		if !sameRoots(pl.Header.Roots, wantRoots) {
+			x.Fail("c15:roots:"+tag, "%s: roots %x want the traversal root(s) %x", what, pl.Header.Roots, wantRoots)
 		}
 		want := firstVisit(writeLog)
 		var got []int
@@ -226,18 +641,59 @@ func runC15(c any, x *kit.Ctx) {
 				x.Fail("c15:unknown-block:"+tag, "%s: output holds a block that is not in the DAG", what)
 				return pl
 			}
+			if !bytes.Equal(s.Data, d.data[i]) {
+				x.Fail("c15:block-data:"+tag, "%s: section of node %d holds %x want %x", what, i, clip(s.Data), clip(d.data[i]))
+			}
 			got = append(got, i)
 		}
-		if fmt.Sprint(got) != fmt.Sprint(want) {
+		if !sameLog(got, want) {
 			x.Fail("c15:blocks:"+tag, "%s: output blocks %v; the traversal loaded (first-visit order) %v; full load log %v", what, got, want, writeLog)
+		}
+		// absolute expectation from the adjacency lists (hand model), where the walk is order independent
+		if budget < 0 {
+			var model map[int]bool
+			allSel := true
+			fieldSel := true
+			for _, dg := range dags {
+				allSel = allSel && dg.sel == "all"
+				fieldSel = fieldSel && dg.sel == "field-a"
+			}
+			switch {
+			case allSel:
+				drop := -1
+				if cs.Walker == "skip1" {
+					drop = 1
+				}
+				model = d.reach(rootIdx, missing, drop)
+			case fieldSel:
+				model = map[int]bool{}
+				for _, r := range rootIdx {
+					model[r] = true
+					if len(d.kids[r]) > 0 && d.kids[r][0] != missing {
+						model[d.kids[r][0]] = true
+					}
+				}
+			}
+			if model != nil {
+				gs := map[int]bool{}
+				for _, i := range got {
+					gs[i] = true
+				}
+				if !sameLog(sortedKeys(gs), sortedKeys(model)) {
+					x.Fail("c15:reach:"+tag, "%s: output holds nodes %v; selector %s from roots %v selects %v (children %v, missing %d)", what, sortedKeys(gs), cs.Sel, rootIdx, sortedKeys(model), d.kids, missing)
+				}
+			}
 		}
 		return pl
 	}
 	var opts []carv2.Option
 	o := cs.Opts
 	opts = o.List()
-	if cs.Budget > 0 {
-		opts = append(opts, carv2.MaxTraversalLinks(cs.Budget))
+	if budget >= 0 {
+		opts = append(opts, carv2.MaxTraversalLinks(uint64(budget)))
+	}
+	if cs.Chooser {
+		opts = append(opts, carv2.WithTraversalPrototypeChooser(dagpb.AddSupportToChooser(c15BasicChooser)))
 	}
 	checkV2 := func(file []byte, writeLog []int, what string) {
 		fl, err := refcar.DecodeFile(file, false)
@@ -252,6 +708,9 @@ func runC15(c any, x *kit.Ctx) {
 		if fl.V2.DataOffset != 51+o.DataPad {
 			x.Fail("c15:data-offset:"+tag, "%s: DataOffset %d want %d", what, fl.V2.DataOffset, 51+o.DataPad)
 		}
+		if fl.V2.DataSize != fl.Payload.End {
+			x.Fail("c15:data-size:"+tag, "%s: header DataSize %d but the payload has %d bytes", what, fl.V2.DataSize, fl.Payload.End)
+		}
 		checkPayload(fl.PayloadRaw, writeLog, what)
 		if o.NoIndex {
 			if fl.HasIndex {
@@ -264,8 +723,15 @@ func runC15(c any, x *kit.Ctx) {
 				if fl.V2.IndexOffset != fl.V2.DataOffset+fl.V2.DataSize+o.IndexPad {
 					x.Fail("c15:index-offset:"+tag, "%s: IndexOffset %d want %d", what, fl.V2.IndexOffset, fl.V2.DataOffset+fl.V2.DataSize+o.IndexPad)
 				}
-				if g, w := recMultiset(fl.IndexCodec, fl.Index), recMultiset(fl.IndexCodec, refcar.RecordsOf(fl.Payload, true)); g != w {
-					x.Fail("c15:index-records:"+tag, "%s: index {%s} want {%s}", what, g, w)
+				if fl.IndexCodec != codecNum(o) {
+					x.Fail("c15:index-codec:"+tag, "%s: index codec 0x%x written, 0x%x requested", what, fl.IndexCodec, codecNum(o))
+				}
+				// identity CIDs: present (at the right offset) or absent are both accepted
+				g := recMultiset(fl.IndexCodec, fl.Index)
+				w1 := recMultiset(fl.IndexCodec, refcar.RecordsOf(fl.Payload, true))
+				w2 := recMultiset(fl.IndexCodec, refcar.RecordsOf(fl.Payload, false))
+				if g != w1 && g != w2 {
+					x.Fail("c15:index-records:"+tag, "%s: index {%s} want {%s}", what, g, w1)
 				}
 			}
 		}
@@ -275,56 +741,80 @@ func runC15(c any, x *kit.Ctx) {
 		ls := st.linkSystem()
 		w, err := carv2.NewSelectiveWriter(ctx, &ls, root, sel, opts...)
 		if err != nil {
-			refusal(err)
+			failed(err, st.log, "NewSelectiveWriter (counting pass)")
 			return
 		}
 		st.log = nil // from here on: the writing pass
 		var buf bytes.Buffer
 		n, err := w.WriteTo(&buf)
 		x.Transition(len(st.log))
+		if n != int64(buf.Len()) {
+			x.Fail("c15:returned-count:"+tag, "WriteTo returned %d (err %v) but wrote %d bytes", n, err, buf.Len())
+		}
 		if err != nil {
-			if errors.Is(err, carv2.ErrSizeMismatch) && defaultCfg {
-				x.Fail("c15:size-mismatch:"+tag, "counting pass and writing pass disagree with default options: %v", err)
-			}
-			refusal(err)
+			failed(err, st.log, "NewSelectiveWriter.WriteTo")
 			return
 		}
-		if n != int64(buf.Len()) {
-			x.Fail("c15:returned-count:"+tag, "WriteTo returned %d but wrote %d bytes", n, buf.Len())
-		}
+		succeeded(st.log, "NewSelectiveWriter.WriteTo")
 		checkV2(buf.Bytes(), st.log, "NewSelectiveWriter.WriteTo")
 	case "v2-traversev1":
 		ls := st.linkSystem()
 		var buf bytes.Buffer
 		n, err := carv2.TraverseV1(ctx, &ls, root, sel, &buf, opts...)
 		x.Transition(len(st.log))
+		if n != uint64(buf.Len()) {
+			x.Fail("c15:returned-count:"+tag, "TraverseV1 returned %d (err %v) but wrote %d bytes", n, err, buf.Len())
+		}
 		if err != nil {
-			refusal(err)
+			failed(err, st.log, "TraverseV1")
 			return
 		}
-		if n != uint64(buf.Len()) {
-			x.Fail("c15:returned-count:"+tag, "TraverseV1 returned %d but wrote %d bytes", n, buf.Len())
-		}
+		succeeded(st.log, "TraverseV1")
 		checkPayload(buf.Bytes(), st.log, "TraverseV1")
 	case "v2-tofile":
 		ls := st.linkSystem()
 		p := filepath.Join(x.Dir, "c15.car")
 		os.Remove(p)
 		defer os.Remove(p)
+		if cs.Prefill {
+			if err := os.WriteFile(p, bytes.Repeat([]byte{0xee}, 8192), 0o644); err != nil {
+				panic(err)
+			}
+		}
 		err := carv2.TraverseToFile(ctx, &ls, root, sel, p, opts...)
 		x.Transition(len(st.log))
 		if err != nil {
-			refusal(err)
+			failed(err, st.log, "TraverseToFile")
 			return
 		}
+		succeeded(st.log, "TraverseToFile")
 		b, _ := os.ReadFile(p)
 		checkV2(b, st.log, "TraverseToFile")
 	case "v1-writecar":
 		var buf bytes.Buffer
-		err := carv1.WriteCar(ctx, c15NodeGetter{st}, []cid.Cid{root}, &buf)
+		var wopts []merkledag.WalkOption
+		if cs.Missing > 0 {
+			st.notFound = true
+			wopts = append(wopts, merkledag.IgnoreMissing())
+		}
+		var err error
+		if cs.Walker == "skip1" {
+			c1 := mustCid(d.cids[1])
+			err = carv1.WriteCarWithWalker(ctx, c15NodeGetter{st}, rootCids, &buf, func(nd format.Node) ([]*format.Link, error) {
+				var out []*format.Link
+				for _, l := range nd.Links() {
+					if !l.Cid.Equals(c1) {
+						out = append(out, l)
+					}
+				}
+				return out, nil
+			}, wopts...)
+		} else {
+			err = carv1.WriteCar(ctx, c15NodeGetter{st}, rootCids, &buf, wopts...)
+		}
 		x.Transition(len(st.log))
 		if err != nil {
-			refusal(err)
+			failed(err, st.log, "WriteCar")
 			return
 		}
 		checkPayload(buf.Bytes(), st.log, "WriteCar")
@@ -333,55 +823,101 @@ func runC15(c any, x *kit.Ctx) {
 		if cs.Once {
 			ropts = append(ropts, carv1.TraverseLinksOnlyOnce())
 		}
-		if cs.Budget > 0 {
-			ropts = append(ropts, carv1.MaxTraversalLinks(cs.Budget))
+		if budget >= 0 {
+			ropts = append(ropts, carv1.MaxTraversalLinks(uint64(budget)))
 		}
-		sc := carv1.NewSelectiveCar(ctx, st, []carv1.Dag{{Root: root, Selector: sel}}, ropts...)
+		var cdags []carv1.Dag
+		for _, dg := range dags {
+			cdags = append(cdags, carv1.Dag{Root: mustCid(d.cids[dg.root]), Selector: c15Selector(dg.sel, cs.Codec)})
+		}
+		sc := carv1.NewSelectiveCar(ctx, st, cdags, ropts...)
 		var buf bytes.Buffer
 		type cb struct {
 			c         []byte
 			off, size uint64
+			data      []byte
 		}
-		var cbs []cb
-		err := sc.Write(&buf, func(b carv1.Block) error {
-			cbs = append(cbs, cb{b.BlockCID.Bytes(), b.Offset, b.Size})
-			return nil
-		})
+		ncb := 1
+		switch cs.Cbs {
+		case "none":
+			ncb = 0
+		case "two":
+			ncb = 2
+		}
+		mkCbs := func() ([]*[]cb, []carv1.OnNewCarBlockFunc) {
+			var lists []*[]cb
+			var fns []carv1.OnNewCarBlockFunc
+			for i := 0; i < ncb; i++ {
+				l := &[]cb{}
+				lists = append(lists, l)
+				fns = append(fns, func(b carv1.Block) error {
+					*l = append(*l, cb{b.BlockCID.Bytes(), b.Offset, b.Size, append([]byte{}, b.Data...)})
+					return nil
+				})
+			}
+			return lists, fns
+		}
+		lists, fns := mkCbs()
+		err := sc.Write(&buf, fns...)
 		x.Transition(len(st.log))
 		if err != nil {
-			refusal(err)
+			failed(err, st.log, "SelectiveCar.Write")
 			return
 		}
 		writeLog := st.log
+		succeeded(writeLog, "SelectiveCar.Write")
 		pl := checkPayload(buf.Bytes(), writeLog, "SelectiveCar.Write")
-		checkCbs := func(cbs []cb, what string) {
+		checkCbs := func(lists []*[]cb, what string) {
 			if pl == nil {
 				return
 			}
-			if len(cbs) != len(pl.Sections) {
-				x.Fail("c15:callback-count:"+tag, "%s: %d block callbacks for %d sections", what, len(cbs), len(pl.Sections))
-				return
-			}
-			for i, s := range pl.Sections {
-				if !bytes.Equal(cbs[i].c, s.Cid) || cbs[i].off != s.Offset || cbs[i].size != s.Len {
-					x.Fail("c15:callback-offsets:"+tag, "%s: callback %d reports offset %d size %d; the section is at %d with size %d", what, i, cbs[i].off, cbs[i].size, s.Offset, s.Len)
+			for k, l := range lists {
+				cbs := *l
+				if len(cbs) != len(pl.Sections) {
+					x.Fail("c15:callback-count:"+tag, "%s: callback #%d called %d times for %d sections", what, k, len(cbs), len(pl.Sections))
+					return
+				}
+				for i, s := range pl.Sections {
+					if !bytes.Equal(cbs[i].c, s.Cid) || cbs[i].off != s.Offset || cbs[i].size != s.Len {
+						x.Fail("c15:callback-offsets:"+tag, "%s: callback #%d call %d reports offset %d size %d; the section is at %d with size %d", what, k, i, cbs[i].off, cbs[i].size, s.Offset, s.Len)
+					}
+					if !bytes.Equal(cbs[i].data, s.Data) {
+						x.Fail("c15:callback-data:"+tag, "%s: callback #%d call %d carries data %x; the section holds %x", what, k, i, clip(cbs[i].data), clip(s.Data))
+					}
 				}
 			}
 		}
-		checkCbs(cbs, "Write")
+		checkCbs(lists, "Write")
 		if cs.Writer == "v1-prepare-dump" {
 			st.log = nil
-			var cbs2 []cb
-			prep, err := sc.Prepare(func(b carv1.Block) error {
-				cbs2 = append(cbs2, cb{b.BlockCID.Bytes(), b.Offset, b.Size})
-				return nil
-			})
+			lists2, fns2 := mkCbs()
+			prep, err := sc.Prepare(fns2...)
 			if err != nil {
-				refusal(err)
+				x.Fail("c15:prepare-error:"+tag, "Prepare failed (%v) although Write of the same SelectiveCar succeeded", err)
 				return
 			}
+			succeeded(st.log, "SelectiveCar.Prepare")
 			if prep.Size() != uint64(buf.Len()) {
 				x.Fail("c15:prepare-size:"+tag, "Prepare().Size()=%d but Write produced %d bytes", prep.Size(), buf.Len())
+			}
+			if pl != nil {
+				var hr [][]byte
+				for _, c := range prep.Header().Roots {
+					hr = append(hr, c.Bytes())
+				}
+				if !sameRoots(hr, wantRoots) || prep.Header().Version != 1 {
+					x.Fail("c15:prepare-header:"+tag, "Prepare().Header() = roots %x version %d; want roots %x version 1", hr, prep.Header().Version, wantRoots)
+				}
+				var pc, sc [][]byte
+				for _, c := range prep.Cids() {
+					pc = append(pc, c.Bytes())
+				}
+				for _, s := range pl.Sections {
+					sc = append(sc, s.Cid)
+				}
+				if !sameRoots(pc, sc) {
+					x.Fail("c15:prepare-cids:"+tag, "Prepare().Cids() = %x; the sections written are %x", pc, sc)
+				}
 			}
 			var dump bytes.Buffer
 			if err := prep.Dump(ctx, &dump); err != nil {
@@ -391,10 +927,11 @@ func runC15(c any, x *kit.Ctx) {
 			if !bytes.Equal(dump.Bytes(), buf.Bytes()) {
 				x.Fail("c15:dump-differs:"+tag, "Dump and Write produce different bytes (%d vs %d)", dump.Len(), buf.Len())
 			}
-			checkCbs(cbs2, "Dump")
+			checkCbs(lists2, "Dump")
 		}
 	}
-	x.State(fmt.Sprintf("%+v", cs))
+	stateKey := fmt.Sprintf("%+v", cs)
+	x.State(stateKey)
 	x.Outcome("written")
 	repeated := false
 	for _, m := range cs.Mult {
@@ -403,21 +940,299 @@ func runC15(c any, x *kit.Ctx) {
 		}
 	}
 	if repeated || cs.N >= 3 {
-		x.Nontrivial(fmt.Sprintf("%+v", cs))
+		x.Nontrivial(stateKey)
 	}
 }
 
-func genC15(tier string, emit func(any)) {
-	maxN := 4
+// c15Tiers: DAGs with up to maxN nodes get the core matrix; the added dimensions are fully crossed up to fullN nodes
+// and run as a reduced matrix on the maxN-node DAGs.
+func c15Tiers(tier string) (maxN, fullN int) {
 	if tier == "thorough" {
-		maxN = 5
+		return 5, 4
 	}
+	return 4, 3
+}
+
+func genC15(tier string, emit func(any)) {
+	maxN, fullN := c15Tiers(tier)
+	type variant struct{ codec, leaf string }
+	core := []variant{{"", ""}, {"", "raw"}}
+	extra := []variant{{"", "twin"}, {"", "ident"}, {"", "raw0"}, {"pb", ""}, {"pb", "raw"}, {"pb", "twin"}, {"pb", "ident"}, {"pb", "raw0"}}
+	sels := []string{"all", "depth1", "depth2", "field-a"}
+	v2writers := []string{"v2-selective", "v2-traversev1", "v2-tofile"}
+	type pc struct {
+		dp, ip uint64
+		codec  string
+		noidx  bool
+	}
+	pcs := []pc{{}, {dp: 3, ip: 2, codec: "sorted"}, {noidx: true}}
+	popts := func(p pc, dup bool) drv.Opts {
+		return drv.Opts{AllowDup: dup, DataPad: p.dp, IndexPad: p.ip, Codec: p.codec, NoIndex: p.noidx}
+	}
+	mkBase := func(n int, mult []int, v variant, sel string) C15Case {
+		cs := C15Case{N: n, Mult: mult, Codec: v.codec, Sel: sel}
+		if v.leaf == "raw" {
+			cs.RawLeaf = true
+		} else {
+			cs.Leaf = v.leaf
+		}
+		return cs
+	}
+	altSel := func(sel string) string {
+		if sel == "all" {
+			return "field-a"
+		}
+		return "all"
+	}
+
+	// the original matrix
+	emitCore := func(base C15Case) {
+		for _, w := range v2writers {
+			for _, dup := range []bool{false, true} {
+				for _, budget := range []uint64{0, 1, 2} {
+					ps := pcs
+					if budget > 0 || w == "v2-traversev1" {
+						ps = pcs[:1]
+					}
+					for _, p := range ps {
+						cs := base
+						cs.Writer, cs.Opts, cs.Budget = w, popts(p, dup), budget
+						emit(cs)
+					}
+				}
+			}
+		}
+		if base.Sel == "all" {
+			cs := base
+			cs.Writer = "v1-writecar"
+			emit(cs)
+		}
+		for _, w := range []string{"v1-selective", "v1-prepare-dump"} {
+			for _, once := range []bool{false, true} {
+				for _, budget := range []uint64{0, 2} {
+					cs := base
+					cs.Writer, cs.Once, cs.Budget = w, once, budget
+					emit(cs)
+				}
+			}
+		}
+	}
+
+	// the added dimensions, fully crossed (core leaf kinds)
+	emitFull := func(base C15Case) {
+		n := base.N
+		for _, w := range v2writers {
+			for _, dup := range []bool{false, true} {
+				cs := base
+				cs.Writer, cs.Opts, cs.Budget0 = w, popts(pcs[0], dup), true
+				emit(cs)
+				for k := 1; k < n; k++ {
+					for _, budget := range []uint64{0, 1} {
+						cs := base
+						cs.Writer, cs.Opts, cs.Budget, cs.Missing = w, popts(pcs[0], dup), budget, k
+						emit(cs)
+					}
+				}
+				if w == "v2-tofile" {
+					for _, p := range pcs {
+						cs := base
+						cs.Writer, cs.Opts, cs.Prefill = w, popts(p, dup), true
+						emit(cs)
+					}
+				}
+				if w == "v2-traversev1" {
+					// padding / index options have no meaning for a CARv1: the output must not depend on them
+					for _, p := range pcs[1:] {
+						cs := base
+						cs.Writer, cs.Opts = w, popts(p, dup)
+						emit(cs)
+					}
+				}
+			}
+		}
+		if base.Sel == "all" {
+			for root2 := 0; root2 <= n; root2++ {
+				for _, walker := range []string{"", "skip1"} {
+					if walker != "" && n < 2 {
+						continue
+					}
+					for k := 0; k < n; k++ {
+						if root2 == 0 && walker == "" && k == 0 {
+							continue // core
+						}
+						cs := base
+						cs.Writer, cs.Root2, cs.Walker, cs.Missing = "v1-writecar", root2, walker, k
+						emit(cs)
+					}
+				}
+			}
+		}
+		for _, w := range []string{"v1-selective", "v1-prepare-dump"} {
+			for _, once := range []bool{false, true} {
+				for root2 := 1; root2 <= n; root2++ {
+					for _, sel2 := range []string{"", altSel(base.Sel)} {
+						for _, budget := range []uint64{0, 2} {
+							cs := base
+							cs.Writer, cs.Once, cs.Budget, cs.Root2, cs.Sel2 = w, once, budget, root2, sel2
+							emit(cs)
+						}
+					}
+				}
+				cs := base
+				cs.Writer, cs.Once, cs.Budget0 = w, once, true
+				emit(cs)
+				for _, cbs := range []string{"none", "two"} {
+					for _, root2 := range []int{0, n} {
+						cs := base
+						cs.Writer, cs.Once, cs.Cbs, cs.Root2 = w, once, cbs, root2
+						emit(cs)
+					}
+				}
+				for k := 1; k < n; k++ {
+					for _, root2 := range []int{0, k + 1} {
+						cs := base
+						cs.Writer, cs.Once, cs.Missing, cs.Root2 = w, once, k, root2
+						emit(cs)
+					}
+				}
+			}
+		}
+	}
+
+	// the added dimensions, reduced (largest DAGs)
+	emitLite := func(base C15Case) {
+		n := base.N
+		for _, w := range v2writers {
+			cs := base
+			cs.Writer, cs.Budget0 = w, true
+			emit(cs)
+		}
+		cs := base
+		cs.Writer, cs.Missing = "v2-selective", n-1
+		emit(cs)
+		cs = base
+		cs.Writer, cs.Prefill = "v2-tofile", true
+		emit(cs)
+		cs = base
+		cs.Writer, cs.Once, cs.Missing = "v1-selective", true, n-1
+		emit(cs)
+		for _, root2 := range []int{1, n} {
+			for _, once := range []bool{false, true} {
+				cs := base
+				cs.Writer, cs.Once, cs.Root2 = "v1-selective", once, root2
+				emit(cs)
+			}
+			if base.Sel == "all" {
+				cs := base
+				cs.Writer, cs.Root2 = "v1-writecar", root2
+				emit(cs)
+			}
+		}
+		if base.Sel == "all" {
+			cs := base
+			cs.Writer, cs.Walker = "v1-writecar", "skip1"
+			emit(cs)
+		}
+		cs = base
+		cs.Writer, cs.Cbs, cs.Root2 = "v1-prepare-dump", "two", n
+		emit(cs)
+	}
+
+	// the added leaf kinds and the dag-pb DAGs
+	emitVariant := func(base C15Case, full bool) {
+		n := base.N
+		pb := base.Codec == "pb"
+		if !full {
+			for _, w := range v2writers {
+				cs := base
+				cs.Writer = w
+				emit(cs)
+			}
+			if pb {
+				cs := base
+				cs.Writer, cs.Chooser = "v2-selective", true
+				emit(cs)
+			}
+			cs := base
+			cs.Writer = "v1-writecar"
+			emit(cs)
+			cs = base
+			cs.Writer = "v1-selective"
+			emit(cs)
+			cs = base
+			cs.Writer, cs.Once = "v1-prepare-dump", true
+			emit(cs)
+			return
+		}
+		for _, w := range v2writers {
+			for _, dup := range []bool{false, true} {
+				for _, chooser := range []bool{false, true} {
+					if chooser && !pb {
+						continue
+					}
+					for _, p := range pcs {
+						cs := base
+						cs.Writer, cs.Opts, cs.Chooser = w, popts(p, dup), chooser
+						emit(cs)
+					}
+					cs := base
+					cs.Writer, cs.Opts, cs.Chooser, cs.Budget = w, popts(pcs[0], dup), chooser, 1
+					emit(cs)
+					if n > 1 {
+						cs = base
+						cs.Writer, cs.Opts, cs.Chooser, cs.Missing = w, popts(pcs[0], dup), chooser, n-1
+						emit(cs)
+					}
+				}
+			}
+		}
+		if base.Sel == "all" {
+			for _, root2 := range []int{0, n} {
+				cs := base
+				cs.Writer, cs.Root2 = "v1-writecar", root2
+				emit(cs)
+			}
+		}
+		for _, w := range []string{"v1-selective", "v1-prepare-dump"} {
+			for _, once := range []bool{false, true} {
+				for _, budget := range []uint64{0, 2} {
+					cs := base
+					cs.Writer, cs.Once, cs.Budget = w, once, budget
+					emit(cs)
+				}
+				cs := base
+				cs.Writer, cs.Once, cs.Root2 = w, once, n
+				emit(cs)
+				if n > 1 {
+					cs = base
+					cs.Writer, cs.Once, cs.Missing = w, once, n-1
+					emit(cs)
+				}
+			}
+		}
+	}
+
+	// the LargeBytesNode selector (v2 writers; lazily loaded children)
+	emitBytes := func(base C15Case) {
+		base.Sel = "bytes"
+		for _, w := range v2writers {
+			for _, dup := range []bool{false, true} {
+				for _, p := range pcs {
+					cs := base
+					cs.Writer, cs.Opts = w, popts(p, dup)
+					emit(cs)
+				}
+			}
+		}
+	}
+
 	for n := 1; n <= maxN; n++ {
 		pairs := n * (n - 1) / 2
 		total := 1
 		for i := 0; i < pairs; i++ {
 			total *= 3
 		}
+		full := n <= fullN
 		for code := 0; code < total; code++ {
 			mult := make([]int, pairs)
 			cc := code
@@ -425,53 +1240,46 @@ func genC15(tier string, emit func(any)) {
 				mult[i] = cc % 3
 				cc /= 3
 			}
-			for _, raw := range []bool{false, true} {
-				if raw && n == 1 {
+			// reduced matrix of the added dimensions: every DAG up to 4 nodes; of the 5-node DAGs those whose
+			// links all have the same multiplicity (2047 of 59049)
+			lite := !full
+			if lite && n > 4 {
+				has := [3]bool{}
+				for _, m := range mult {
+					has[m] = true
+				}
+				lite = !(has[1] && has[2])
+			}
+			for _, v := range core {
+				if v.leaf != "" && n == 1 {
 					continue
 				}
-				for _, sel := range []string{"all", "depth1", "depth2", "field-a"} {
-					base := C15Case{N: n, Mult: mult, RawLeaf: raw, Sel: sel}
-					// v2 writers
-					for _, w := range []string{"v2-selective", "v2-traversev1", "v2-tofile"} {
-						for _, dup := range []bool{false, true} {
-							for _, budget := range []uint64{0, 1, 2} {
-								type pc struct {
-									dp, ip uint64
-									codec  string
-									noidx  bool
-								}
-								pcs := []pc{{}, {dp: 3, ip: 2, codec: "sorted"}, {noidx: true}}
-								if w == "v2-traversev1" {
-									pcs = pcs[:1]
-								}
-								if budget > 0 {
-									pcs = pcs[:1]
-								}
-								for _, p := range pcs {
-									cs := base
-									cs.Writer = w
-									cs.Opts = drv.Opts{AllowDup: dup, DataPad: p.dp, IndexPad: p.ip, Codec: p.codec, NoIndex: p.noidx}
-									cs.Budget = budget
-									emit(cs)
-								}
-							}
-						}
+				for _, sel := range sels {
+					base := mkBase(n, mult, v, sel)
+					emitCore(base)
+					if full {
+						emitFull(base)
+					} else if lite {
+						emitLite(base)
 					}
-					// root module writers
-					if sel == "all" {
-						cs := base
-						cs.Writer = "v1-writecar"
-						emit(cs)
+				}
+				if full {
+					emitBytes(mkBase(n, mult, v, "bytes"))
+				}
+			}
+			for _, v := range extra {
+				if v.leaf != "" && n == 1 {
+					continue
+				}
+				if full {
+					for _, sel := range sels {
+						emitVariant(mkBase(n, mult, v, sel), true)
 					}
-					for _, w := range []string{"v1-selective", "v1-prepare-dump"} {
-						for _, once := range []bool{false, true} {
-							for _, budget := range []uint64{0, 2} {
-								cs := base
-								cs.Writer, cs.Once, cs.Budget = w, once, budget
-								emit(cs)
-							}
-						}
+					if v.codec == "pb" && v.leaf == "raw" {
+						emitBytes(mkBase(n, mult, v, "bytes"))
 					}
+				} else if lite {
+					emitVariant(mkBase(n, mult, v, "all"), false)
 				}
 			}
 		}
@@ -484,14 +1292,25 @@ func init() {
 		Gen:    genC15,
 		Run:    runC15,
 		Decode: kit.DecodeAs[C15Case],
-		Rule: "every dag-cbor DAG with up to N nodes (upper-triangular adjacency, link multiplicity 0/1/2 per pair, optional raw leaf; hand-encoded) x selector {explore-all, depth 1, depth 2, first field} x writer {NewSelectiveWriter.WriteTo, TraverseV1, TraverseToFile, root WriteCar, SelectiveCar.Write, Prepare+Dump} x {link-visit-once on/off, link budget none/1/2, paddings, index codec/none}; " +
-			"oracle: an independent log of the loads of the writing pass (first-visit order = output blocks, each once), announced sizes = bytes written, Dump = Write, callback offsets = section offsets; an error is a refusal unless the traversal options are the defaults; non-trivial = DAG with >= 3 nodes or a repeated link",
+		Rule: "every DAG with up to N nodes (upper-triangular adjacency, link multiplicity 0/1/2 per pair; hand-encoded dag-cbor/CIDv1 or dag-pb/CIDv0; last node: same codec | 100-byte raw | raw twin of node N-2 (same multihash, other codec) | identity-CID raw | zero-length raw) " +
+			"x selector {explore-all, 2 depth limits, first-field path, InterpretAs->LargeBytesNode whose byte stream loads the children lazily (v2)} " +
+			"x writer {NewSelectiveWriter.WriteTo, TraverseV1, TraverseToFile (fresh / pre-existing longer file), root WriteCar, WriteCarWithWalker (walk func dropping links), SelectiveCar.Write, Prepare+Dump} " +
+			"x {link-visit-once on/off, link budget none/0/1/2, paddings, index codec/none, dag-pb prototype chooser, second root/Dag (every node incl. the same root, own selector), 0/1/2 block callbacks, one node absent from the store (SkipMe / IgnoreMissing)}; " +
+			"core matrix on all DAGs up to N nodes, added dimensions fully crossed up to N-1 nodes and as a reduced matrix on the N-node DAGs (N=5: only on the 2047 DAGs whose links all have the same multiplicity; see genC15); " +
+			"oracle: (1) independent log of the loads of the writing pass: output blocks = first-visit order of the log, each once, bytes intact; (2) the log equals that of a reference ipld-prime walk run without go-car (same selector, link-visit-once, budget), an error is legal only where the reference walk fails with the same loads, ErrSizeMismatch only when the writing pass loaded a block twice; " +
+			"(3) hand model from the adjacency lists for explore-all / first-field / merkledag walks: set of output blocks = reachable set; (4) announced sizes = bytes written (DataSize, Prepare().Size(), returned counts also on error), Prepare().Header()/Cids() = header/sections written, Dump = Write, every callback's offset/size/data = the section's, index codec = requested, index = sections; " +
+			"non-trivial = DAG with >= 3 nodes or a repeated link",
 		Bound: func(tier string) map[string]any {
-			if tier == "thorough" {
-				return map[string]any{"nodes": 5, "link_multiplicity": 2, "selectors": 4, "writers": 6}
-			}
-			return map[string]any{"nodes": 4, "link_multiplicity": 2, "selectors": 4, "writers": 6}
+			maxN, fullN := c15Tiers(tier)
+			return map[string]any{"nodes": maxN, "nodes_full_cross_of_added_dimensions": fullN, "link_multiplicity": 2, "selectors": 5, "writers": 7, "node_codecs": 2, "leaf_kinds": 5, "link_budgets": []any{"none", 0, 1, 2}}
 		},
-		Assumptions: []string{"hand-written dag-cbor encoder", "ErrSizeMismatch and budget exhaustion are refusals (asserting nothing) outside the default configuration"},
+		Assumptions: []string{
+			"hand-written dag-cbor and dag-pb encoders",
+			"the reference traversal is ipld-prime's own walker driven directly by the harness (go-ipld-prime is trusted, go-car is not)",
+			"v2 AllowDuplicatePuts (documented as ignored by the v2 root package, implemented as link-visit-once off): either traversal is accepted",
+			"ErrSizeMismatch is a refusal (asserting only the returned count and the loads) when the writing pass loaded some block more than once: link-visit-once off, or lazy loads behind a LargeBytesNode",
+			"identity-CID blocks may or may not appear in the index written by the v2 traversal writers",
+			"depth-limited and first-field selectors on dag-pb count data-model steps (Links/index/Hash): limits 4 and 7 are used for one and two link levels",
+		},
 	})
 }
